@@ -36,6 +36,12 @@ def units(tier):
         chunk = 2 if days == "boundary" else 3
         for i in range(0, len(ys), chunk):
             us.append(("cfg", kind, rep, tkey, zkey, nd, ys[i:i + chunk], days, durs))
+    # quick only: the configurations with 3 and 4 deviations on a compact pool (thorough explores them in full above)
+    if tier == "quick":
+        for kind, rep, ts, zs, nd, years, days in pools.configs(4):
+            if nd >= 3:
+                us.append(("corner", kind, rep, "whole" if ts is pools.T_WHOLE else "dev",
+                           "z0" if zs is pools.Z0 else "dev", nd))
     # far durations from the small year set
     for kind in A.KINDS:
         for rep in pools.REPS:
@@ -75,6 +81,9 @@ def _zsets(zkey, tier="thorough"):
     return Z_DEV_QUICK if tier == "quick" else pools.Z_DEV
 
 
+CORNER_Y = [2000, 2003, -1]
+CORNER_T = pools.T_24 + [["hf", 23, 0.5], ["hmf", 12, 30, 0.3], ["hmsf", 23, 59, 59, 0.999999]]
+CORNER_Z = [[-5, -30], [99, 59]]
 SWEEP_T = [["hms", 0, 0, 0], ["hms", 23, 59, 59]]
 SWEEP_D = [{"days": 1}, {"days": -1}, {"seconds": 1}, {"seconds": -1}, {"weeks": 1}, {"weeks": -1},
            {"days": 366}, {"days": -366}, {"hours": 24}, {"minutes": -1440}]
@@ -284,6 +293,15 @@ def run_unit(unit, ctx):
             ctx.state_count += 1
             ctx.sample(lambda: {"mode": kind, "p": pdesc, "d": _DURS[durs][0], "deviations": nd})
             check_point(ctx, kind, c, pdesc, _durs(durs))
+    elif u == "corner":
+        _, _, rep, tkey, zkey, nd = unit
+        times = [pools.T_WHOLE[0], pools.T_WHOLE[-1]] if tkey == "whole" else CORNER_T
+        zones = pools.Z0 if zkey == "z0" else CORNER_Z
+        for pdesc in pools.point_descs(kind, rep, times, zones, CORNER_Y, "small"):
+            ctx.state_count += 1
+            ctx.sample(lambda: {"mode": kind, "p": pdesc, "d": _DURS["core"][0], "deviations": nd})
+            check_point(ctx, kind, c, pdesc, _durs("core"))
+        ctx.count("corner_configurations")
     elif u == "far":
         rep = unit[2]
         for pdesc in pools.point_descs(kind, rep, pools.T_WHOLE[:1] + pools.T_24, pools.Z0 + pools.Z_DEV[1:2],
@@ -316,7 +334,8 @@ def describe(tier):
     return {
         "rule": "deviation-bounded product (<= %d deviations from {gregorian, calendar date, whole-second form, Z}) of "
                 "boundary years x boundary days x representations x time forms x offsets, each shifted by every "
-                "duration of the alphabet; far durations from a small year set; %s" % (
+                "duration of the alphabet; in quick the 23 configurations with 3-4 deviations on a compact pool (3 years x 8 days x 2-4 "
+                "time forms x 1-2 offsets); far durations from a small year set; %s" % (
                     k, "every day of three Gregorian cycles and of the fixed calendars' weekday cycles x 3 "
                     "representations x 10 unit shifts at 00:00:00 and 23:59:59" if tier == "thorough" else
                     "expanded years +-10000, +-999999"),
